@@ -118,12 +118,16 @@ fn efg_cases(rng: &mut Rng, tree: &HNode, out: &mut Vec<Case>) {
     let arg = *rng.pick(&["gambit", "auto"]);
     let ext = if arg == "auto" { *rng.pick(&["efg", "txt"]) } else { *rng.pick(&["efg", "txt", "json"]) };
     let perr = if arg == "auto" && ext == "efg" { vec![GAMBIT_ERR] } else { parse_err_for(Format::Efg, arg) };
-    let kind = rng.below(18);
+    let kind = rng.below(20);
     if kind == 9 {
         opts.naming = Naming::NumberClash;
     }
     if kind == 10 {
         opts.naming = Naming::Duplicate;
+    }
+    if kind == 18 || kind == 19 {
+        opts.interior = true;
+        opts.uncompensated = true;
     }
     if kind == 11 || kind == 12 {
         opts.constant = *rng.pick(&[0.0, 10.0]);
@@ -223,6 +227,26 @@ fn efg_cases(rng: &mut Rng, tree: &HNode, out: &mut Vec<Case>) {
                     let name = format!("payoff-sum-perturbed-x{}", factor);
                     push(&name, Some(l2.join("\n") + "\n"), if factor < 1.0 { Expect::Accept } else { Expect::Reject(vec![SUM_ERR]) });
                 }
+            }
+        }
+        18 | 19 => {
+            // an interior outcome (stated or attached by number only) that the terminals below it
+            // do not compensate; judged on the path totals the writer recorded, with the
+            // documented 0.1% tolerance and a don't-care band around it
+            let unc = fg.features.iter().find(|f| f.starts_with("uncompensated-interior-outcome")).cloned();
+            if let (Some(f), false) = (unc, fg.totals.is_empty()) {
+                let half: Vec<f64> = fg.totals.iter().map(|(a, b)| (a + b) / 2.0).collect();
+                let spread = half.iter().cloned().fold(f64::NEG_INFINITY, f64::max) - half.iter().cloned().fold(f64::INFINITY, f64::min);
+                let one_range = fg.totals.iter().map(|t| t.0).fold(f64::NEG_INFINITY, f64::max) - fg.totals.iter().map(|t| t.0).fold(f64::INFINITY, f64::min);
+                let name = if f.ends_with("by-reference") { "uncompensated-interior-outcome-by-reference" } else { "uncompensated-interior-outcome-stated" };
+                let expect = if spread * 1000.0 > one_range * 2.0 {
+                    Expect::Reject(vec![SUM_ERR])
+                } else if spread * 1000.0 < one_range * 0.5 {
+                    Expect::Accept
+                } else {
+                    Expect::DontCare("constant-sum-spread-near-the-documented-tolerance")
+                };
+                push(name, Some(t.clone()), expect);
             }
         }
         13 => push("wrong-format-selected", Some(t.clone()), Expect::Reject(vec![JSON_ERR])),
@@ -369,7 +393,7 @@ pub fn run(ctx: &mut Ctx) {
         }
     });
     ctx.finish(crate::report::extra(
-        "cases = corrupted inputs to the shipped binary, each derived from a valid generated file, under --input-format {json,gambit,auto}, via -i file (extensions .json/.efg/.txt) or stdin, to stdout or -o file. JSON: truncation, dropped/renamed required fields, wrong types, prob in {0,-1,-0.0}, overflowing payoff literal, garbage/empty input, wrong format selected, C11 contract violations (empty chance/player, renamed action at one node, added/dropped action, forgotten own action, relabelling across branches) written in the DSL; extra unknown fields are don't-care. Gambit: truncation at a token boundary, 1 or 3 players, wrong header, dropped action list, terminal without payoffs, chance list not summing to 1, zero/negative chance probability summing to 1, non-finite payoffs (1e999), unnamed infoset whose number is another infoset's explicit name (same player), two infoset numbers of one player with the same explicit name, one payoff perturbed by {0.5,1.01,2,100} x the documented 0.1% constant-sum tolerance (0.5x must be ACCEPTED), duplicate action inside a node, imperfect recall, wrong format selected, garbage. Required for invalid input: non-zero exit status that is not a signal, no result object on stdout or in the -o file, and a diagnostic containing a documented category (#json-error, #gambit-error, #auto-error, #game-error, #duplicate-infosets, #constant-sum, 'players', 'non-finite'); a documented category other than the expected one is counted, not failed. distinct = hash(input text, corruption); non-trivial = every case.",
+        "cases = corrupted inputs to the shipped binary, each derived from a valid generated file, under --input-format {json,gambit,auto}, via -i file (extensions .json/.efg/.txt) or stdin, to stdout or -o file. JSON: truncation, dropped/renamed required fields, wrong types, prob in {0,-1,-0.0}, overflowing payoff literal, garbage/empty input, wrong format selected, C11 contract violations (empty chance/player, renamed action at one node, added/dropped action, forgotten own action, relabelling across branches) written in the DSL; extra unknown fields are don't-care. Gambit: truncation at a token boundary, 1 or 3 players, wrong header, dropped action list, terminal without payoffs, chance list not summing to 1, zero/negative chance probability summing to 1, non-finite payoffs (1e999), unnamed infoset whose number is another infoset's explicit name (same player), two infoset numbers of one player with the same explicit name, one payoff perturbed by {0.5,1.01,2,100} x the documented 0.1% constant-sum tolerance (0.5x must be ACCEPTED), an interior-node outcome with a non-zero pair sum (stated in place or attached by outcome number only, payoffs stated elsewhere) that the terminals below it do not compensate, duplicate action inside a node, imperfect recall, wrong format selected, garbage. Required for invalid input: non-zero exit status that is not a signal, no result object on stdout or in the -o file, and a diagnostic containing a documented category (#json-error, #gambit-error, #auto-error, #game-error, #duplicate-infosets, #constant-sum, 'players', 'non-finite'); a documented category other than the expected one is counted, not failed. distinct = hash(input text, corruption); non-trivial = every case.",
         &["validity of each corrupted input is known by construction (the harness knows what it broke); unknown extra JSON fields and duplicate JSON keys are don't-care"],
     ));
 }
